@@ -14,7 +14,7 @@ from tiv.sem import trace, expand, same
 
 RULES = {
     "MEMO": "memo safety (shared, rules/common.py): a memoised function in this property's files (or called from them) is a function of its "
-            "arguments only (no terminal/ambient/receiver state outside the key) and no caller mutates its result in place",
+            "arguments only (no terminal/ambient/receiver state outside the key) and no caller mutates its result in place; renderers keep no state: _render_image, _get_render_data, _format_render and the size helpers store to no attribute of the instance or class",
     "R1": "chunk protocol (Transmission.get_chunks): the default chunk size is an int literal <= 4096 and a multiple of 4 and no call site "
           "overrides it; the generator uses one-chunk look-ahead: the first yield carries the control data and m=bool(<look-ahead>), every yield inside "
           "`while <look-ahead>` carries the literal m=1, the yield after the loop carries m=0 and is guarded by the pending chunk; every yield is a "
